@@ -40,8 +40,11 @@ Prec(e) ==
     [] e.t = "neg" -> 7
     [] OTHER -> 9
 
-\* operand `e` in a position that accepts precedence >= min
-NeedsParens(e, min) == Prec(e) < min
+\* operand `e` in a position that accepts precedence >= min.  The bare root path '/' is parenthesized
+\* as an operand: by the lexical rule of section 3.7 a '*' or a name after the operator '/' is read as a
+\* node test, so "/ * 2" and "/ div 2" are not the product and quotient they look like.
+IsBareRoot(e) == e.t = "path" /\ e.abs /\ Len(e.steps) = 0
+NeedsParens(e, min) == Prec(e) < min \/ (IsBareRoot(e) /\ min > 1)
 
 OpTok(op) == IF op \in {"or", "and", "div", "mod"} THEN W(op) ELSE IF op = "-" THEN MinusTok ELSE Sy(op)
 
